@@ -677,8 +677,8 @@ theorem C06_leaky_max_form_counterexample :
 /-! ## binary(use_stochastic_rounding=True) in the training phase
 
   `x = f * _round_through(x / f, True, 0.125)` with `f = tf.stop_gradient(2·min(max|x|, 1))` (repaired by
-  95def59; before, `f` was differentiable and the arg-max element of every scale group received the rounding
-  residues of all elements), and `f = 1` for a group of zeros (0c3be6f; before, `x / 0` = NaN).  `f` below is
+  7f3e140; before, `f` was differentiable and the arg-max element of every scale group received the rounding
+  residues of all elements), and `f = 1` for a group of zeros (c0623bb; before, `x / 0` = NaN).  `f` below is
   ANY dual number — whatever value and tangent `2 * m` carries — the model applies the code's stop_gradient and
   fall-back to it. -/
 
@@ -803,7 +803,7 @@ theorem C06_binary_sr_infer (t : Tie) (alphaNone : Bool) (th th' : ℚ → ℚ) 
     binSRD t false alphaNone th th' f u x xq = binTerD alphaNone th th' x xq := by
   unfold binSRD binSRWith binTerD; simp
 
-/-- REGRESSION WITNESS of 95def59 (the former counterexample, known finding C06-binary-sr-train-leak): an
+/-- REGRESSION WITNESS of 7f3e140 (the former counterexample, known finding C06-binary-sr-train-leak): an
     element x_j = 5/16 (tangent 0 w.r.t. the arg-max element), 2·m = 1 with tangent 2 (max|x| = 1/2 at a
     positive arg-max), draw 0.  The output y_j = 3/8 no longer depends on the arg-max element (derivative 0,
     as for the identity surrogate); the un-stopped expression gave 1/8 -/
@@ -819,7 +819,7 @@ theorem C06_binary_sr_train_fixed_witness_argmax :
     (binSRD .even true false (fun _ => 0) (fun _ => 0) ⟨1, 2⟩ 0 (D.var (1 / 2)) (D.const 1)).tan = 1 := by
   decide +kernel
 
-/-- REGRESSION WITNESS of 0c3be6f: binary(alpha=1.0, use_stochastic_rounding=True)(zeros) in training —
+/-- REGRESSION WITNESS of c0623bb: binary(alpha=1.0, use_stochastic_rounding=True)(zeros) in training —
     value = the quantized tensor, gradient 1 (the real code returned NaN for both) -/
 theorem C06_binary_sr_zero_group_fixed_witness :
     binSRD .even true false (fun _ => 0) (fun _ => 0) ⟨0, 0⟩ (1 / 2) (D.var 0) (D.const 1) = ⟨1, 1⟩ ∧
